@@ -474,7 +474,10 @@ def make_app(programs, state):
                 write = start_response(prog["status"], headers)
         except Exception as e:
             state.sr_errors.append(type(e).__name__)
-            raise
+            if not prog.get("catch_refusal"):
+                raise
+            # an application (or middleware) that catches the refusal and returns its body all the same
+            write = None
         second = prog.get("second_sr")
         if fail == "after_sr":
             raise boom("after start_response")
